@@ -1,0 +1,38 @@
+//go:build verif
+
+package cctp
+
+// Machine-checked contracts for /verif's VC generator (govc); see keeper/verif_contracts.go.
+
+// ======================================================================= genesis (C17)
+
+// Export reads every field of GenesisState from its own accessor and writes nothing.
+//@ func ExportGenesis(ctx, k) (genesis)
+//@ serves C17
+//@ requires inited()
+//@ ensures[C17.export.roles]   genesis.Owner == st.owner.val && genesis.AttesterManager == st.attesterManager.val && genesis.Pauser == st.pauser.val && genesis.TokenController == st.tokenController.val
+//@ ensures[C17.export.lists]   genesis.AttesterList == stAttesters() && genesis.PerMessageBurnLimitList == stLimits() && genesis.TokenPairList == stPairs() && genesis.UsedNoncesList == stNonces() && genesis.TokenMessengerList == stMessengers()
+//@ ensures[C17.export.flags]   (st.bmPaused.set ==> genesis.BurningAndMintingPaused != nil && genesis.BurningAndMintingPaused.Paused == st.bmPaused.val) && (st.srPaused.set ==> genesis.SendingAndReceivingMessagesPaused != nil && genesis.SendingAndReceivingMessagesPaused.Paused == st.srPaused.val)
+//@ ensures[C17.export.scalars] (st.maxBody.set ==> genesis.MaxMessageBodySize != nil && genesis.MaxMessageBodySize.Amount == st.maxBody.val) && (st.nextNonce.set ==> genesis.NextAvailableNonce != nil && genesis.NextAvailableNonce.Nonce == st.nextNonce.val) && (st.threshold.set ==> genesis.SignatureThreshold != nil && genesis.SignatureThreshold.Amount == st.threshold.val)
+//@ emits[C15.export] []
+//@ calls[C15.export] []
+//@ modifies[C15.export C17.pure] none
+
+// Init writes every field, with the documented defaults for absent optional fields (flags true, 8000, nonce 0,
+// threshold 1), and every list entry under its key. It panics on an explicit threshold of 0 (precondition).
+//@ func InitGenesis(ctx, k, genState) ()
+//@ serves C17
+//@ requires[C17.threshold] genState.SignatureThreshold == nil || genState.SignatureThreshold.Amount != 0
+//@ ensures[C17.init.roles]   st.owner.set && st.owner.val == genState.Owner && st.attesterManager.set && st.attesterManager.val == genState.AttesterManager && st.pauser.set && st.pauser.val == genState.Pauser && st.tokenController.set && st.tokenController.val == genState.TokenController
+//@ ensures[C17.init.flags]   st.bmPaused.set && st.bmPaused.val == (genState.BurningAndMintingPaused == nil ? true : genState.BurningAndMintingPaused.Paused) && st.srPaused.set && st.srPaused.val == (genState.SendingAndReceivingMessagesPaused == nil ? true : genState.SendingAndReceivingMessagesPaused.Paused)
+//@ ensures[C17.init.scalars] st.maxBody.set && st.maxBody.val == (genState.MaxMessageBodySize == nil ? 8000 : genState.MaxMessageBodySize.Amount) && st.nextNonce.set && st.nextNonce.val == (genState.NextAvailableNonce == nil ? 0 : genState.NextAvailableNonce.Nonce) && st.threshold.set && st.threshold.val == (genState.SignatureThreshold == nil ? 1 : genState.SignatureThreshold.Amount)
+//@ ensures[C17.init.attesters]  forall j: int :: 0 <= j && j < len(genState.AttesterList) ==> st.attesters.has[genState.AttesterList[j].Attester]
+//@ ensures[C17.init.limits]     forall j: int :: 0 <= j && j < len(genState.PerMessageBurnLimitList) ==> st.burnLimits.has[genState.PerMessageBurnLimitList[j].Denom]
+//@ ensures[C17.init.tokenPairs] forall j: int :: 0 <= j && j < len(genState.TokenPairList) ==> st.tokenPairs.has[genState.TokenPairList[j].RemoteDomain][genState.TokenPairList[j].RemoteToken]
+//@ ensures[C17.init.usedNonces] forall j: int :: 0 <= j && j < len(genState.UsedNoncesList) ==> st.usedNonces.has[genState.UsedNoncesList[j].SourceDomain][genState.UsedNoncesList[j].Nonce]
+//@ ensures[C17.init.messengers] forall j: int :: 0 <= j && j < len(genState.TokenMessengerList) ==> st.messengers.has[genState.TokenMessengerList[j].DomainId]
+//@ loop 0 invariant[attesters]  rangeindex >= -1 && rangeindex < len(genState.AttesterList) && forall j: int :: 0 <= j && j <= rangeindex ==> st.attesters.has[genState.AttesterList[j].Attester]
+//@ loop 1 invariant[limits]     rangeindex >= -1 && rangeindex < len(genState.PerMessageBurnLimitList) && forall j: int :: 0 <= j && j <= rangeindex ==> st.burnLimits.has[genState.PerMessageBurnLimitList[j].Denom]
+//@ loop 2 invariant[tokenPairs] rangeindex >= -1 && rangeindex < len(genState.TokenPairList) && forall j: int :: 0 <= j && j <= rangeindex ==> st.tokenPairs.has[genState.TokenPairList[j].RemoteDomain][genState.TokenPairList[j].RemoteToken]
+//@ loop 3 invariant[usedNonces] rangeindex >= -1 && rangeindex < len(genState.UsedNoncesList) && forall j: int :: 0 <= j && j <= rangeindex ==> st.usedNonces.has[genState.UsedNoncesList[j].SourceDomain][genState.UsedNoncesList[j].Nonce]
+//@ loop 4 invariant[messengers] rangeindex >= -1 && rangeindex < len(genState.TokenMessengerList) && forall j: int :: 0 <= j && j <= rangeindex ==> st.messengers.has[genState.TokenMessengerList[j].DomainId]
